@@ -1613,13 +1613,14 @@ func search(e *env, seed uint64, n int, big int) {
 	fmt.Fprintf(out, "NOTE\tbox_by_box_diffs\t%d\n", boxDiffs)
 	fmt.Fprintf(out, "NOTE\tfragments_with_unusual_placement\t%d\n", benignSamples)
 	fmt.Fprintf(out, "NOTE\tfragments_with_empty_nal_units\t%d\n", emptyNalSamples)
+	fmt.Fprintf(out, "NOTE\tsamples_read_through_trun_offset\t%d\n", rawReads)
 	fmt.Fprintf(out, "NOTE\tiv_across_fragments\tEncryptFragment has no IV state across fragments: callers (cmd/mp4ff-encrypt) start every fragment from the same IV, so with one key counter blocks repeat ACROSS fragments; the property speaks about one fragment - not alarmed\n")
 	fmt.Fprintf(out, "EVALS\t%d\n", evals)
 	out.Flush()
 }
 
 // checkFragment evaluates the clauses of C07 on one encrypted fragment, after a full encode/decode cycle.
-var maskChecked, synthFrags, benignSamples, emptyNalSamples int
+var maskChecked, synthFrags, benignSamples, emptyNalSamples, rawReads int
 
 func checkFragment(e *env, fr fragResult, prefix []fragResult, codec byte, scheme string, key, ivIn []byte, samples [][]byte, naluLists [][][]byte, hdrLists [][]int, wit string) {
 	// encode init + fragment, decode again: the observation point is the encoded file
@@ -1749,6 +1750,10 @@ func checkFragment(e *env, fr fragResult, prefix []fragResult, codec byte, schem
 	sencMasks := make([][]bool, nsmp)
 	for i := 0; i < nsmp; i++ {
 		clear := samples[i]
+		rawAcc := 0
+		for j := 0; j < i; j++ {
+			rawAcc += len(samples[j])
+		}
 		enc := encFs[i].Data
 		if len(enc) != len(clear) {
 			fail("mp4.EncryptFragment", "sample-size-changed", wit, fmt.Sprintf("sample %d", i))
@@ -1862,6 +1867,24 @@ func checkFragment(e *env, fr fragResult, prefix []fragResult, codec byte, schem
 			if codec == 'u' && (fr.cb != 0 || fr.sb != 0) || codec != 'u' && (fr.cb != 1 || fr.sb != 9) {
 				fail("mp4.InitProtect", "cbcs-pattern", wit, fmt.Sprintf("tenc pattern %d:%d", fr.cb, fr.sb))
 			}
+		}
+		// trun.data_offset after encryption: the sample read from the RAW encoded file at moof start + data offset +
+		// sizes of the samples before (nothing of the library's sample access involved) must be the encrypted sample:
+		// the reference cipher output, i.e. the clear bytes wherever the senc map says clear
+		if traf.Trun != nil {
+			at := moofStart + int(traf.Trun.DataOffset) + rawAcc
+			if at < 0 || at+len(clear) > len(raw) {
+				fail("mp4.EncryptFragment+Fragment.Encode", "trun-offset-outside-file", wit, fmt.Sprintf("sample %d: moof start %d + data offset %d + %d is outside the file of %d bytes", i, moofStart, traf.Trun.DataOffset, rawAcc, len(raw)))
+			} else if got := raw[at : at+len(clear)]; !bytes.Equal(got, ref) {
+				nclear := 0
+				for j := range got {
+					if !mask[j] && got[j] != clear[j] {
+						nclear++
+					}
+				}
+				fail("mp4.EncryptFragment+Fragment.Encode", "trun-offset-after-encrypt", wit, fmt.Sprintf("sample %d read through trun.data_offset %d (moof %d bytes at %d) is not the encrypted sample; %d bytes outside the protected ranges differ from the clear sample", i, traf.Trun.DataOffset, dfrag.Moof.Size(), moofStart, nclear))
+			}
+			rawReads++
 		}
 		if !bytes.Equal(ref, enc) {
 			k := 0
